@@ -38,7 +38,8 @@ marker = st.one_of(
     st.tuples(st.just('toc'), st.just(0), st.just('')),
     st.tuples(st.just('wild'), st.integers(0, 2), st.sampled_from(['root', 'bare'])),
     st.tuples(st.just('long'), st.integers(990, 1100), st.just('')),
-    st.tuples(st.just('stray'), st.integers(990, 1100), st.just('')),          # an opener that is never closed itself, far before the next real marker
+    st.tuples(st.just('stray'), st.integers(990, 1100), st.just('')),
+    st.tuples(st.just('tocfile'), st.integers(0, 2), st.just('')),               # a file whose name merely begins with the letters TOC          # an opener that is never closed itself, far before the next real marker
     st.tuples(st.just('file'), st.integers(0, 5), st.just('wild')),             # a case file named through the wildcard extension (cycles through .* markers)
     st.tuples(st.just('file'), st.integers(0, 5), st.just('wild')),
     st.tuples(st.just('shared'), st.integers(0, 1), st.just('')),
@@ -117,6 +118,9 @@ def materialise(case, root, search):
             files['%swild0%s' % (d, e)] = ('', 'WILD0 %s %s\n' % (e, d))
     for e in ('.html', '.tex', '.txt'):
         files['wild1' + e] = ('', 'WILD1 %s root only\n' % e)
+    files['TOCnotes.txt'] = ('', 'TOCNOTES root {{shared1.txt}}\n')
+    files['TOC-appendix.txt'] = ('', 'TOC APPENDIX root\n')
+    files['sub/TOC2.txt'] = ('', 'TOC2 sub\n')
     files['shared0.txt'] = ('', 'SHARED0 root {{shared1.txt}}\n')
     files['sub/shared1.txt'] = ('', 'SHARED1 sub\n')
     for i, f in enumerate(case['files']):
@@ -156,6 +160,8 @@ def materialise(case, root, search):
                 body += '{{missing%d.txt}}' % a
             elif kind == 'toc':
                 body += '{{TOC}}'
+            elif kind == 'tocfile':
+                body += ('{{TOCnotes.txt}}', '{{TOC-appendix.txt}}', '{{sub/TOC2.txt}}')[a % 3]
             elif kind == 'wild':
                 body += '{{wild%d.*}}' % (a % 2) if style == 'root' else '{{sub/wild%d.*}}' % (a % 2)
             elif kind == 'long':
